@@ -319,6 +319,8 @@ class Interpreter(BaseInterpreter[TContext, TEvent]):
         #    and raising "dictionary changed size during iteration".
         for actor in list(self._actors.values()):
             await actor.stop()
+            # 🌐 A stopped actor must not stay addressable by systemId.
+            self._unregister_from_system(actor)
         self._actors.clear()
 
         # ❌ Cancel all background tasks (timers, services) owned by this interpreter.
